@@ -1082,3 +1082,121 @@ Proof.
   - apply negb_false_iff, N.eqb_eq in B2. right. split; [congruence|exact B2].
   - apply negb_false_iff, N.eqb_eq in B1. left. split; [exact Hr|exact B1].
 Qed.
+
+(* ------------------------------------------------------------------ *)
+(* when does the term change? *)
+
+Definition self_wins (r : raft) : Prop := tally r [(r_id r, true)] = VoteWon.
+
+Definition prevote_tally (r : raft) (m : msg) : vote_res :=
+  tally r (Quorum.record_vote (t_votes (r_prs r)) (m_from m) (negb (m_reject m))).
+
+Lemma poll_term r from v rp res : poll r from v = Ok (rp, res) ->
+  cfg_of rp = cfg_of r /\
+  (r_term rp = r_term r \/
+   (r_term rp = r_term r + 1 /\ r_state r = PreCandidate /\
+    tally r (Quorum.record_vote (t_votes (r_prs r)) from v) = VoteWon /\
+    campaign_real false (with_votes r (Quorum.record_vote (t_votes (r_prs r)) from v)) = Ok rp)).
+Proof.
+  unfold poll. intros H. apply poll_gen_cases in H. cbn zeta in H. destruct H as [Hres H].
+  destruct res.
+  - subst rp. split; [reflexivity|left; reflexivity].
+  - change (r_term r) with (r_term (with_votes r (Quorum.record_vote (t_votes (r_prs r)) from v))) in H.
+    apply become_follower_keeps_t in H. destruct H as [[A B] _]. split; [exact B|left; exact A].
+  - destruct (r_state r) eqn:Es; cbn [role_eqb] in H;
+      try (destruct H as (r1 & Hl & Hb); apply become_leader_keeps_t in Hl;
+           destruct Hl as [[A B] _]; apply bcast_append_keeps, keeps_fields in Hb;
+           destruct Hb as (C1 & _ & _ & _ & C5); split; [rewrite C5; exact B|left; rewrite C1; exact A]).
+    pose proof (campaign_real_facts _ _ _ H) as (A1 & A2 & _).
+    split; [exact A2|]. right. split; [exact A1|]. split; [reflexivity|]. split; [symmetry; exact Hres|exact H].
+Qed.
+
+(* the three ways a step raises the term by one on its own *)
+Definition raises (r : raft) (m : msg) : Prop :=
+  (m_type m = MsgHup /\ r_state r <> Leader /\ r_promotable r = true /\
+   (r_pre_vote r = false \/ self_wins r)) \/
+  (m_type m = MsgTimeoutNow /\ r_state r = Follower /\ r_promotable r = true) \/
+  (m_type m = MsgRequestPreVoteResponse /\ r_state r = PreCandidate /\
+   prevote_tally r m = VoteWon).
+
+Lemma step_body_term r m r' c : step_body r m = Ok (r', c) ->
+  cfg_of r' = cfg_of r /\
+  (r_term r' = r_term r \/ (r_term r' = r_term r + 1 /\ raises r m)).
+Proof.
+  unfold step_body. intros H.
+  destruct (m_type m =? MsgHup) eqn:Ehup.
+  { ib H y Hy. okinv H. apply hup_term in Hy. destruct Hy as [A [B|(B1 & B2 & B3 & B4)]].
+    - split; [exact A|left; exact B].
+    - split; [exact A|]. right. split; [exact B1|]. left. apply N.eqb_eq in Ehup.
+      repeat split; try assumption. destruct B4 as [?|[?|?]]; [discriminate|left|right]; assumption. }
+  dtop H.
+  { ib H utd Hu. ib H rt Hrt. dtop H.
+    - ib H r1 H1. apply send_keeps, keeps_fields in H1. destruct H1 as (A1 & _ & _ & _ & A5).
+      dtop H; okinv H; (split; [exact A5|left; exact A1]).
+    - ib H ci Hci. ib H r1 H1. ib H r2 H2. okinv H.
+      apply send_keeps, keeps_fields in H1. destruct H1 as (A1 & _ & _ & _ & A5).
+      apply maybe_commit_by_vote_keeps_t in H2. destruct H2 as [[B1 B2] _].
+      split; [congruence|left; congruence]. }
+  destruct (r_state r) eqn:Es.
+  - (* follower *)
+    apply step_follower_cases in H; [|exact Es].
+    destruct H as [(A1 & A2 & A3)|(A1 & _ & _ & A4 & _)]; [|split; [exact A4|left; exact A1]].
+    apply hup_term in A3. destruct A3 as [B [C|(C1 & _)]]; (split; [exact B|]); [left; exact C|].
+    right. split; [exact C1|]. right. left. auto.
+  - (* candidate *)
+    apply step_candidate_cases in H; [|left; exact Es].
+    destruct H as [K|[(_ & Et & r1 & Hf & K)|(Hk & rp & res & Hp & Hc)]].
+    + apply keeps_fields in K. destruct K as (A1 & _ & _ & _ & A5). split; [exact A5|left; exact A1].
+    + rewrite <- Et in Hf. apply become_follower_keeps_t in Hf. destruct Hf as [[B1 B2] _].
+      apply keeps_fields in K. destruct K as (A1 & _ & _ & _ & A5).
+      split; [congruence|left; congruence].
+    + apply poll_term in Hp. destruct Hp as [P1 [P2|(_ & P3 & _)]]; [|congruence].
+      apply maybe_commit_by_vote_keeps_t in Hc. destruct Hc as [[B1 B2] _].
+      split; [congruence|left; congruence].
+  - (* leader *)
+    apply step_leader_cases in H. destruct H as [K|(_ & _ & Hf)].
+    + apply keeps_fields in K. destruct K as (A1 & _ & _ & _ & A5). split; [exact A5|left; exact A1].
+    + change (r_term r) with (r_term (r <| r_prs := fst (quorum_recently_active (r_prs r) (r_id r)) |>)) in Hf.
+      apply become_follower_keeps_t in Hf. destruct Hf as [[B1 B2] _]. split; [exact B2|left; exact B1].
+  - (* pre-candidate *)
+    apply step_candidate_cases in H; [|right; exact Es].
+    destruct H as [K|[(_ & Et & r1 & Hf & K)|(Hk & rp & res & Hp & Hc)]].
+    + apply keeps_fields in K. destruct K as (A1 & _ & _ & _ & A5). split; [exact A5|left; exact A1].
+    + rewrite <- Et in Hf. apply become_follower_keeps_t in Hf. destruct Hf as [[B1 B2] _].
+      apply keeps_fields in K. destruct K as (A1 & _ & _ & _ & A5).
+      split; [congruence|left; congruence].
+    + apply maybe_commit_by_vote_keeps_t in Hc. destruct Hc as [[B1 B2] _].
+      apply poll_term in Hp. destruct Hp as [P1 [P2|(P2 & _ & P4 & _)]].
+      * split; [congruence|left; congruence].
+      * split; [congruence|]. right. split; [congruence|]. right. right.
+        destruct Hk as [[_ Hk]|[Hk _]]; [|congruence]. repeat split; assumption.
+Qed.
+
+(* Complete case analysis of one step, for every role and every message:
+   the term is unchanged, or raised by one by the node itself ([raises]), or a
+   higher term is adopted from a message that is neither dropped by the lease nor
+   exempt (after which MsgHup / MsgTimeoutNow may campaign on top of it) *)
+Theorem step_term_cases r m r' c : step r m = Ok (r', c) ->
+  cfg_of r' = cfg_of r /\
+  (r_term r' = r_term r \/
+   (r_term r' = r_term r + 1 /\ raises r m /\
+    (m_term m = 0 \/ m_term m = r_term r \/
+     (r_term r < m_term m /\ lease_drop r m = false /\ exempt m = true))) \/
+   (r_term r < m_term m /\ lease_drop r m = false /\ exempt m = false /\
+    (r_term r' = m_term m \/
+     (r_term r' = m_term m + 1 /\ (m_type m = MsgHup \/ m_type m = MsgTimeoutNow))))).
+Proof.
+  rewrite step_eq. intros H. ib H pre Hpre. apply step_pre_cases in Hpre.
+  destruct pre as [[r1 c1]|r1].
+  - okinv H. destruct Hpre as (_ & _ & [(_ & _ & ->)|(_ & Hl)]); [split; [reflexivity|left; reflexivity]|].
+    apply low_term_reply_msgs_only, msgs_only_keeps, keeps_fields in Hl.
+    destruct Hl as (A1 & _ & _ & _ & A5). split; [exact A5|left; exact A1].
+  - destruct Hpre as [[-> Hc]|(Hlt & Hld & Hex & Hf)].
+    + apply step_body_term in H. destruct H as [A [B|[B1 B2]]]; (split; [exact A|]); [left; exact B|].
+      right. left. auto.
+    + apply step_body_term in H. apply become_follower_facts in Hf.
+      destruct Hf as (F1 & F2 & F3 & _).
+      destruct H as [A B]. split; [congruence|]. right. right. repeat split; try assumption.
+      destruct B as [B|[B1 B2]]; [left; congruence|]. right. split; [congruence|].
+      destruct B2 as [(T & _)|[(T & _)|(_ & S & _)]]; [left; exact T|right; exact T|congruence].
+Qed.
